@@ -23,7 +23,7 @@ Meta == [uncompared |-> Uncompared, uncomparedEverywhere |-> UncomparedEverywher
          derived |-> DerivedGetters, views |-> ViewNames,
          base |-> {[view |-> n, len |-> BaseView[n].len, set |-> BaseView[n].set, raw |-> BaseView[n].raw] : n \in ViewNames},
          precedenceOverlaps |-> Cardinality(PrecedenceOverlaps), portPairs |-> Cardinality(PortClasses \X PortClasses),
-         deviations |-> NamedDeviations \ {"none"}]
+         deviations |-> NamedDeviations \ {"none"}, fills |-> FreeByteFills, prefixes |-> PrefixTransforms]
 
 Tag(f, S) == {[fam |-> f, c |-> x] : x \in S}
 Vectors ==
